@@ -117,7 +117,9 @@ struct Exec{
   bool usable(int s){ return c.mv[s].alive && !c.mv[s].moved_from && c.mv[s].kind!=K_EMPTY; }   // may be read as an operand
   // a user buffer may be shared only by vectors of one dimension (full sharing, never partial overlap)
   bool buffer_free_for(int b,unsigned d,int except){
-    for(int s=0;s<NSLOTS;s++) if(s!=except && c.mv[s].alive && c.mv[s].kind==K_EXT && c.mv[s].buf==b && c.mv[s].dim!=d) return false;
+    // vectors of different dimensions may be bound to one buffer (they start at the same element, the smaller is a prefix of the larger): the model
+    // keeps external values in the buffer, so whatever one writes the other sees. Operations between them are rejected by the library (sizes differ).
+    (void)except;
     return d*d+c.uoff[b]<=BUFLEN;
   }
   std::string kd(int s){
